@@ -302,6 +302,22 @@ func genCase(t *rapid.T) *Case {
 			c.Reqs = append(c.Reqs, rt.Req{Method: "GET", Host: h, Path: "/"}, rt.Req{Method: "GET", Host: h, Path: "/zz"})
 		}
 	}
+	if gen.Chance(t, 1, 20, "widehosts") {
+		// more than fifty hostnames that differ in their first byte (the children of the method's root are then searched by
+		// bisection), and only then several routes behind one parameter label and behind a prefixed one
+		first := "abcdefghijklmnopqrstuvwxyz0123456789ABCDEFGHIJKLMNOPQRSTUVWXYZ"[:gen.IntR(t, 48, 58, "nfirst")]
+		for _, ch := range first {
+			c.Routes = append(c.Routes, rt.RouteSpec{Method: "GET", Pattern: string(ch) + "w.example/"})
+		}
+		for _, p := range []string{"{sub}.example.com/a", "{sub}.example.com/b", "{sub}.example.org/", "k{rest}.example/a", "k{rest}.example/b", "/a"} {
+			c.Routes = append(c.Routes, rt.RouteSpec{Method: "GET", Pattern: p})
+		}
+		for _, h := range []string{"x.example.com", "x.example.com:8080", "x.example.org", "aw.example", "Aw.example", "kz.example", "kw.example", "k.example", "zz.example", "example.com"} {
+			for _, q := range []string{"/", "/a", "/b"} {
+				c.Reqs = append(c.Reqs, rt.Req{Method: "GET", Host: h, Path: q})
+			}
+		}
+	}
 	nreq := gen.IntR(t, 1, 6, "nreq")
 	for i := 0; i < nreq; i++ {
 		src := gen.Pick(t, c.Routes, "src")
